@@ -134,6 +134,10 @@ def fixed_probes():
     for k, mk in (("vec", "let s = make();"), ("sliceMut", "let mut v = make(); let s = v.as_mut_slice();"), ("refMut", "let mut v = make(); let s = v.index_mut(0);"),
                   ("iterMut", "let mut v = make(); let s = v.iter_mut();"), ("iter", "let v = make(); let s = v.iter();")):
         add("move", f"{k} is not Copy: use after move", f"    {mk}\n    let t = s;\n    use_(&s); use_(&t);", False, "surface 0 cVN cVN u0 u1")
+    # a mutable access cannot be duplicated by cloning either (two live mutable accesses to the same elements)
+    for k, mk in (("sliceMut", "let mut v = make(); let s = v.as_mut_slice();"), ("refMut", "let mut v = make(); let s = v.index_mut(0);"),
+                  ("iterMut", "let mut v = make(); let s = v.iter_mut();")):
+        add("move", f"{k} is not Clone", f"    {mk}\n    let t = s.clone();\n    use_(&s); use_(&t);", False)
     # disjoint halves of a mutable slice are both usable; the original is not
     add("split", "split_at_mut halves are independent", "    let mut v = make(); let s = v.as_mut_slice();\n    let (mut l, mut r) = s.split_at_mut(1);\n    *l.index_mut(0).a += 1; *r.index_mut(0).a += 1; use_(&l); use_(&r);", True, "surface 0 cVN u0 u0")
     add("split", "split_at_mut consumes the mutable slice", "    let mut v = make(); let s = v.as_mut_slice();\n    let (l, r) = s.split_at_mut(1);\n    let n = s.len();\n    use_(&l);", False, "surface 0 cVN cSN u0")
